@@ -329,11 +329,11 @@ pub fn run(run: &Run) {
     });
     run.set_exhaustive("ipv4_grid");
     let c4 = (v4_any(), variant()).prop_map(|(addr, variant)| Case { addr, variant });
-    run.prop("ipv4_random", run.tier.pick(20_000, 2_000_000), sh, c4, check_addr);
+    run.prop("ipv4_random", run.tier.pick(1000000, 40000000), sh, c4, check_addr);
     let c6 = (v6_classes(), variant()).prop_map(|(addr, variant)| Case { addr, variant });
-    run.prop("ipv6", run.tier.pick(3000, 200_000), sh, c6, check_addr);
+    run.prop("ipv6", run.tier.pick(150000, 4000000), sh, c6, check_addr);
     let h = (prop_oneof![3 => v4_any(), 1 => v6_classes()], any::<bool>(), any::<bool>(), any::<u16>(), any::<bool>()).prop_map(|(addr, first_display, second_display, second_port, second_other_ip)| Handoff { addr, first_display, second_display, second_port, second_other_ip });
-    run.prop("handoff", run.tier.pick(1500, 40_000), sh, h, run_handoff);
+    run.prop("handoff", run.tier.pick(75000, 800000), sh, h, run_handoff);
     let any_addr = || prop_oneof![3 => v4_any(), 1 => v6_classes()];
     let bad = prop_oneof![
         2 => ".{0,40}".prop_map(Bad::Random),
@@ -345,7 +345,7 @@ pub fn run(run: &Run) {
         1 => any_addr().prop_map(Bad::OpenParen),
         1 => (any_addr(), "[a-z -]{0,20}").prop_map(|(a, g)| Bad::Garbage(a, g)),
     ];
-    run.prop("malformed", run.tier.pick(6000, 300_000), sh, bad, run_bad);
+    run.prop("malformed", run.tier.pick(300000, 6000000), sh, bad, run_bad);
 }
 
 pub fn replay(run: &Run, sub: &str, case: &Value) -> Option<bool> {
